@@ -13,6 +13,8 @@ ASSUMPTIONS = ["weights positive"]
 def run_case(ctx, case):
     rec, drv = ctx["rec"], ctx["drv"]
     c = de(case)
+    if c.get("kind") == "stateful":
+        return run_stateful(ctx, case)
     U, W, us = c["U"], c["W"], c["us"]
     p, n, knots = kv_info(U)
     rec.case(case, nontrivial=nontrivial_kv(U))
@@ -93,8 +95,57 @@ def run_case(ctx, case):
             rec.violation("basis evaluation outside the interval did not raise ValueError", case, u=str(uo), observed=str(r))
 
 
+def run_stateful(ctx, case):
+    """a Function object must follow in-place changes of its KnotVector (no stale tables)"""
+    rec, drv = ctx["rec"], ctx["drv"]
+    c = de(case)
+    U, steps = c["U"], c["steps"]
+    rec.case(case, nontrivial=True)
+    rec.count("stateful", "sequence")
+    kv = KnotVector(list(U))
+    f = Function(kv)
+    cur = list(U)
+    for step in [None] + steps:
+        if step is not None:
+            kind, arg = step
+            r = impl(lambda: {"insert": lambda: f.knotvector.insert(list(arg)), "remove": lambda: f.knotvector.remove(list(arg)),
+                              "kvinsert": lambda: kv.insert(list(arg)), "setdeg": lambda: setattr(f.knotvector, "degree", int(arg[0])),
+                              "iadd": lambda: f.knotvector.__iadd__(list(arg))}[kind]())
+            if r[0] != "ok":
+                continue
+            cur = [frac(x) for x in f.knotvector]
+        p, n, _ = kv_info(cur)
+        for j in sorted(set([p, max(0, p - 1)])):
+            for u in params_for(ctx["rng"], cur, extra=1):
+                r = impl(lambda: f[:, j](u))
+                spec = drv.call("cdb.row", cur, None, j, u)
+                l3(rec, "cdb-after-mutation")
+                if r[0] != "ok":
+                    rec.violation("basis evaluation raised after an in-place change of the knot vector", case, step=ser(step), j=j, u=str(u), observed=r[1])
+                    return
+                if tuple(frac(x) for x in r[1]) != tuple(spec[1]):
+                    rec.violation("basis values are not those of the current knot vector (stale table)", case, step=ser(step), j=j, u=str(u),
+                                  observed=ser([frac(x) for x in r[1]]), expected=ser(spec[1]))
+                    return
+
+
 def run(ctx):
     rng = ctx["rng"]
+    for i in range(budget(ctx, 25, 250)):
+        U = rand_kv(rng, pmax=3, nintmax=2, maxmult=2)
+        p, n, knots = kv_info(U)
+        a, b = U[0], U[-1]
+        steps = []
+        for _ in range(rng.randint(1, 3)):
+            k = rng.choice(["insert", "insert", "kvinsert", "remove", "setdeg", "iadd"])
+            if k == "remove":
+                if len(knots) > 2:
+                    steps.append(("remove", [rng.choice(knots[1:-1])]))
+            elif k == "setdeg":
+                steps.append(("setdeg", [F(p + 1)]))
+            else:
+                steps.append((k, [a + (b - a) * rng.choice(GRID)]))
+        run_stateful(ctx, ser(dict(kind="stateful", U=U, steps=steps)))
     for i in range(budget(ctx, 120, 1500)):
         big = rng.random() < 0.15
         U = rand_kv(rng, bigknots=big, force_zero=(i % 8 == 0))
